@@ -177,7 +177,7 @@ def run(ctx):
             r = ctx.tlc("ScoreSelect", tlc.cfg(constants={"MaxChunks": 2 if len(fx.rows) > 4 else 4, "ScoreLevels": {0, 1}, "Export": True}, invariants=inv),
                         note="export", files={"fixture.json": fj}, env={"FIXTURE_FILE": "fixture.json"}, workers=1, count=False)
             cases = r.by_tag("sel")
-            budget = 700 if ctx.quick else 12000
+            budget = 450 if ctx.quick else 12000
             pick = cases if len(cases) <= budget else rnd.sample(cases, budget)
             for e in pick:
                 cand = list(e["cand"])
